@@ -122,6 +122,11 @@ def run(ctx):
               "reencode_json_ok", "msgid_same_block_different_signatures"):
         if c.get(k, 0) == 0:
             missing.append(k)
+    kinds = {m["k"] for k in cases for m in k["m"]}
+    missing += ["mutation kind " + x for x in ("raw", "fix", "resign", "fork", "forge", "dah", "vs", "commit", "sig", "sub")
+                if x not in kinds]
+    if not any(k["t"] > 0 and k["adj"] for k in cases) or not any(k["t"] > 0 and not k["adj"] for k in cases):
+        missing.append("adjacent and non-adjacent pairs")
     if missing and rep.get("summary"):
         ctx.inconclusive("vacuity: never exercised on the real code: %s" % missing)
     done = c.get("cases_validate", 0) + c.get("cases_verify", 0)
